@@ -341,6 +341,40 @@ theorem prefix_discipline_new_reader {E} (C : Codec E) (fs : FS) (split : Bool) 
   · simp only [lookupNew, readEntry,
       hother _ (isKeyPath_keyPath split k' hk') (fun e => hne (keyPath_inj split k' k e))]
 
+/-! ## later processes opened with the default arguments (`directory_split="auto"`) -/
+
+/-- the repaired writer keeps its temporary file next to the entry, never directly below the
+    cache directory of a split cache -/
+theorem writeAtomic_layoutOK (k : Key) (tag : Name) (data : Bytes) :
+    layoutOK true (writeAtomic true k tag data) = true := by
+  simp [layoutOK, writeAtomic, rootClean, tmpPath, keyPath, FS.parent]
+
+/-- **auto_layout_stable.**  In a split cache (nothing but sub-directories below the cache
+    directory) a writer whose system calls pass `layoutOK` — in particular the repaired writer —
+    can be killed at any instant: still no regular file lies directly below the cache directory,
+    so a later process opened with `directory_split="auto"` can only conclude "split", whichever
+    entry the directory listing yields first. -/
+theorem auto_layout_stable (fs : FS) (ops : List Op) (h0 : ∀ n, fs.files [n] = none)
+    (hl : layoutOK true ops = true) :
+    ∀ fs' ∈ crashStates fs ops, ¬ autoMayBe fs' false := by
+  intro fs' hm hauto
+  have hr := rootNoFiles_crashStates ops fs h0 hl fs' hm
+  simp only [autoMayBe, Bool.false_eq_true, if_false] at hauto
+  obtain ⟨n, hn⟩ := hauto
+  rw [hr n] at hn
+  cases hn
+
+/-- a temporary file directly below the cache directory (e.g. `tempfile.mkstemp(dir=root)`)
+    breaks this: after a kill "auto" may conclude "flat" and miss every entry -/
+theorem root_tmp_counterexample :
+    ∃ fs' ∈ crashStates (FS.ofList [([['a','b'], ['c']], [1])] [[['a','b']]])
+        [Op.create [['t','m','p']], Op.append [['t','m','p']] [7], Op.rename [['t','m','p']] [['a','b'], ['d']]],
+      autoMayBe fs' false := by
+  refine ⟨(FS.ofList [([['a','b'], ['c']], [1])] [[['a','b']]]).step (.create [['t','m','p']]), ?_, ?_⟩
+  · simp [crashStates]
+  · simp only [autoMayBe, Bool.false_eq_true, if_false]
+    exact ⟨['t','m','p'], by decide⟩
+
 /-! ## the file protocol implements the abstract `disk` map of C14 -/
 
 section Refinement
